@@ -15,7 +15,7 @@ RULE = ('well-formed chart drawn per run whose guards are P.tguard(i, event, aft
         'P.tcond(j, after(d), idle(d2), time), half of whose states carry a postcondition P.tpost(j, after(d), time), half of whose transitions carry an invariant P.ttinv(i, idle(d), time) and whose entry/exit/action code logs the `time` variable; contract checking is on. The '
         'interpreter clock is a SkewClock (a larger value at every read) in half of the runs and a SimClock moved from inside probe calls '
         '(i.e. during the step) in the other half - half of those count integer ticks from 2**62+3, which no double represents; a third of the rest use decimal times (0.1, 0.3, ...) and only check that every evaluation of one predicate about one state in one step gives the same answer -; advances are drawn from {0, exactly d, d -/+ one tick, large}. Every time observation '
-        'of a step must equal the first clock value read by execute_once (in a third of the runs on a skewing or plain clock the chart also sends events, with delays, and events are queued with a delay between steps: neither moves anybody\'s time, and a step that finds an internal event due samples the clock like any other), and every logged after/idle value must equal the exact '
+        '(generated code cannot raise by itself: a CodeEvaluationError is a violation) of a step must equal the first clock value read by execute_once (in a third of the runs on a skewing or plain clock the chart also sends events, with delays, and events are queued with a delay between steps: neither moves anybody\'s time, and a step that finds an internal event due samples the clock like any other), and every logged after/idle value must equal the exact '
         'comparison with entry / idle stamps kept by the model from the real entered lists and fired transitions. non-trivial = a step '
         'with >= 1 after/idle observation whose stamp differs from the step time; distinct = distinct (chart, step time, stamps of the '
         'observed states)')
@@ -137,6 +137,10 @@ def run(ch, tier):
                     return res.fail('step-time', 'Interpreter.time is %r after a (failed) step called at clock %r' % (sim.it.time, float(T)),
                                     chart=sp.describe())
                 continue
+            if type(r.exc).__name__ == 'CodeEvaluationError':
+                # generated code consists of probe calls fed with time / after() / idle(): it cannot raise by itself
+                return res.fail('predicate-raised', 'evaluating generated code (probe calls fed with time, after(), idle()) raised: %s'
+                                % str(r.exc)[:160].replace('\n', ' '), chart=sp.describe(), step=r.k)
             raise Abandon('other: unexpected %s' % r.exc_name())
         ctx = dict(chart=sp.describe(), step=r.k, T=float(T), clock='SkewClock' if skew else 'integer tick clock starting at 2**62+3, moved by probes' if bigint else 'SimClock moved by probes',
                    entry_stamps={k2: float(v) for k2, v in sorted(r.entry_before.items())},
